@@ -78,6 +78,21 @@ def do_call(seg, op, refdes, val):
         return 'exc:' + type(e).__name__, []
 
 
+def trim(c):
+    while len(c) > 1 and c[-1] == '':
+        c = c[:-1]
+    return c
+
+
+def elem_reads(seg):
+    """get_value at element level for every element of the segment (None -> [])"""
+    out = []
+    for i in range(1, len(seg) + 1):
+        r = seg.get_value('%02d' % i)
+        out.append(r.split(':') if r is not None else [])
+    return out
+
+
 def refdes_of(segid, e, c):
     return (segid or '') + '%02d' % e + ('-%d' % c if c else '')
 
@@ -125,6 +140,7 @@ def replay_hist(chk, hists):
             # the same designator is exercised with and without the segment id
             refdes = refdes_of('TST' if (k + n) % 2 else '', step['e'], step['c'])
             before = proj_seg(seg)
+            elem_reads(seg)                      # element-level reads before the write (PathDef!GetEle): whatever they leave behind must not outlive it
             out, _ = do_call(seg, 'set', refdes, [step['v']])
             after = proj_seg(seg)
             rb_out, rb = do_call(seg, 'get', refdes, None)
@@ -136,6 +152,8 @@ def replay_hist(chk, hists):
                 clause = 'state'
             elif rb_out != 'ok' or rb != [step['v']]:
                 clause = 'readback'
+            elif elem_reads(seg) != [trim(list(c)) for c in step['seg']['eles']]:
+                clause = 'element_read'          # get_value('NN') of every element = its components without trailing empty ones
             if clause:
                 chk.violation({'clause': 'seg_' + clause, 'op': [step['e'], step['c'], step['v']], 'before': seg_text(before)},
                               'Segment %s .set(%r,%r): spec expects %s, observed %s (outcome %s, read back %s %s)'
